@@ -44,3 +44,15 @@ Proof.
   intros Hn Hr. unfold op_outcome. rewrite Hn.
   destruct (resolve_op ops d op) as [[|]|]; try reflexivity. congruence.
 Qed.
+
+(* a boolean table fact in either state: what it gives when the repair is in the source and when it is not *)
+Lemma forallb_state {A} (f : A -> bool) (l : list A) (b : bool) : forallb f l = b ->
+  (b = true -> forall x, In x l -> f x = true) /\ (b = false -> exists x, In x l /\ f x = false).
+Proof.
+  intros H. split; intros Hb; rewrite Hb in H.
+  - intros x Hx. rewrite forallb_forall in H. now apply H.
+  - clear Hb. induction l as [|a l IH]; cbn in H; [discriminate|].
+    destruct (f a) eqn:E.
+    + destruct (IH H) as (x & Hx & Fx). exists x. split; [now right | exact Fx].
+    + exists a. split; [now left | exact E].
+Qed.
